@@ -237,7 +237,43 @@ def main(tier, seed):
                                    "program": PROGRAMS[pid]["text"], "reference": result_view(ref, names[pid]),
                                    "got": result_view(real["result"], names[pid])})
                     break
-    coverage = {"states": distinct, "transitions": states, "traces_validated_against_impl": replayed,
+    # ---- several files in one command line invocation (one action object for all of them): what is printed for a file
+    # must not depend on the files handled before it
+    GA = "x = 0\nstop = 0\nwhile stop == 0:\n    x = x + 1\n    stop = Bernoulli(1/2)\nend\n"
+    GB = "x = 0\nstop = 0\nwhile stop == 0:\n    x = x + 2 {1/2} x + 6\n    stop = Bernoulli(1/4)\nend\n"
+    WA = "x = 1\ny = 1\nwhile true:\n    x = 2*x\n    y = 4*y\nend\n"
+    WB = "x = 3\ny = 1\nwhile true:\n    x = 4*x\n    y = 2*y\nend\n"
+    cli_cases = [("after_loop", [GA, GB], ["--goals", "E(x)", "k2(x)", "c2(x)", "--after_loop"]),
+                 ("moments", [GA, GB], ["--goals", "E(x)", "E(x**2)", "k3(x)"]),
+                 ("invariants", [WA, WB], ["--goals", "x", "y", "--invariants"]),
+                 ("central_cumulant", [GB, GA], ["--goals", "c4(x)", "k4(x)", "c2(x)"])]
+    cjobs = []
+    for name, files, argv in cli_cases:
+        for order in (files, list(reversed(files))):
+            cjobs.append({"kind": "cli_files", "id": f"cli|{name}|{'ab' if order is files else 'ba'}", "files": order, "argv": argv, "timeout": 300})
+        for i, f in enumerate(files):
+            cjobs.append({"kind": "cli_files", "id": f"cli|{name}|single{i}", "files": [f], "argv": argv, "timeout": 300})
+    cres = pool.run_jobs(cjobs, per_job_timeout=300, fresh_each=True)
+
+    def norm_out(o):
+        txt = "\n".join(l for l in o.get("out", "").splitlines() if not l.startswith("Elapsed"))
+        return re.sub(r"/tmp/\S+\.prob", "<file>", txt), o.get("exc")
+    cli_compared = cli_bad = 0
+    for name, files, argv in cli_cases:
+        singles = [cres.get(f"cli|{name}|single{i}", {}).get("outputs", [None])[0] for i in range(len(files))]
+        for tag, order in (("ab", [0, 1]), ("ba", [1, 0])):
+            outs = cres.get(f"cli|{name}|{tag}", {}).get("outputs")
+            if not outs or any(s_ is None for s_ in singles):
+                continue
+            for pos, fi in enumerate(order):
+                cli_compared += 1
+                if pos < len(outs) and norm_out(outs[pos]) != norm_out(singles[fi]):
+                    cli_bad += 1
+                    run.violation({f"cli-files:{name}"}, {"clause": "output for a file depends on the files handled before it in the same invocation",
+                                                          "arguments": argv, "position": pos, "alone": norm_out(singles[fi])[0][-600:],
+                                                          "in_sequence": norm_out(outs[pos])[0][-600:]})
+    coverage = {"cli_multi_file_outputs_compared": cli_compared, "cli_multi_file_mismatches": cli_bad,
+                "states": distinct, "transitions": states, "traces_validated_against_impl": replayed,
                 "samples": [[(a["a"], a.get("p", a.get("o")), a["counter"]) for a in h] for h in sample[:4]],
                 "histories_enumerated_by_tlc": total_hists, "max_history_length": maxlen,
                 "histories_with_predicted_name_collision": len(predicted),
